@@ -22,14 +22,32 @@ public:
     {
     }
 
-    auto w() const
+    using array_t = Eigen::Array<scalar_t, Eigen::Dynamic, 1>;
+
+    bool constant() const
     {
+        // NB: the normal equations are (numerically) singular if the feature is constant across the given samples,
+        //     in which case the least-squares solution is the constant fit!
+        const auto x0x2 = x2(bin_affine) * x0(bin_affine);
+        return !(x0x2 - x1(bin_affine) * x1(bin_affine) > epsilon1<scalar_t>() * x0x2);
+    }
+
+    array_t w() const
+    {
+        if (constant())
+        {
+            return array_t::Zero(r1(bin_affine).size());
+        }
         return (rx(bin_affine) * x0(bin_affine) - r1(bin_affine) * x1(bin_affine)) /
                (x2(bin_affine) * x0(bin_affine) - x1(bin_affine) * x1(bin_affine));
     }
 
-    auto b() const
+    array_t b() const
     {
+        if (constant())
+        {
+            return fit_constant(bin_affine);
+        }
         return (r1(bin_affine) * x2(bin_affine) - rx(bin_affine) * x1(bin_affine)) /
                (x2(bin_affine) * x0(bin_affine) - x1(bin_affine) * x1(bin_affine));
     }
